@@ -38,7 +38,7 @@ man = {
     "setup_cmd": "python3-vt run.py build",
     "hooks": {
         "guard": "cargo feature verif-hooks (off by default)",
-        "enable": "the harness crate /verif/harness depends on /repo by path with features=[\"verif-hooks\"]; every check starts with cargo build --offline of the harness, which recompiles /repo's working tree",
+        "enable": "the harness crate /verif/harness depends on /repo by path; its cargo feature `hooks` turns on the library's `verif-hooks`. Checks C03, C10 and C16 run half of their workload on a build with the hooks (evaluator state / executed branch observable) and half on the default-features build; every other check runs only on the default-features build, i.e. the configuration a user compiles. Every check starts with cargo build --offline of the harness, which recompiles /repo's working tree",
         "baseline_off_cmd": "cd /repo && cargo test --offline",
         "source_commits": hook_commits,
         "add_only": True,
